@@ -46,7 +46,8 @@ Print Assumptions J_snap_cp_sound.
 Theorem J_snap_quiet_sound : forall sn i,
   judge_quiet_snap sn = Ok i ->
   Proofs.Learn.state_ok (mk_state (sn_trail sn) (sn_model sn) (sn_reasons sn) (sn_assum sn)) (sn_lvl sn) /\
-  forall c, In c (sn_constrs sn) -> 0 <= slack_of (sn_model sn) c.
+  forall k c, nth_error (sn_constrs sn) k = Some c ->
+              held_to_account (sn_norig sn) (sn_cp sn) (Z.of_nat k) = true -> 0 <= slack_of (sn_model sn) c.
 Proof. exact judge_quiet_snap_sound. Qed.
 Print Assumptions J_snap_quiet_sound.
 
